@@ -621,14 +621,14 @@ theorem length_filter_ne {l : List Nat} (nd : l.Nodup) {k : Nat} (hk : k ∈ l) 
         intro b hb
         have : b ≠ a := fun e => hnot (e ▸ hb)
         exact decide_eq_true this
-      rw [List.filter_cons_of_neg (by simp), hself, List.length_cons]
+      rw [List.filter_cons, if_neg (by simp), hself, List.length_cons]
     · have hkt : k ∈ t := by
         rcases List.mem_cons.mp hk with h | h
         · exact absurd h.symm hak
         · exact h
       have := ih ndt hkt
       have hp : (fun j => decide (j ≠ k)) a = true := decide_eq_true hak
-      rw [List.filter_cons_of_pos hp, List.length_cons, List.length_cons]
+      rw [List.filter_cons, if_pos hp, List.length_cons, List.length_cons]
       omega
 
 theorem handleData_inv5 {N : Nat} {c : Client} (I : Inv5 N c) (o k : Nat) (a : Arrival)
